@@ -118,9 +118,10 @@ def bounds(tier):
         'a_boms': BOM_NAMES,
         'a_declaration_encodings': DECL_ENC_Q if q else DECL_ENC_T,
         'a_declaration_params': {k: len(v) for k, v in DECL_PARAMS.items()},
-        'a_declaration_deviations_k': 1 if q else 2,
+        'a_spelling_deviations': 'declaration k<=1 x 5 metas' if q else 'declaration k<=2 x 5 metas, plus declaration k<=1 x meta spellings k<=1',
         'a_declarations': len(_table_decls(tier)),
         'a_metas': len(_table_metas(tier)),
+        'a_declaration_meta_pairs': len(_table_pairs(tier)),
         'a_given_as': ['str', 'bytes'],
         'b_byte_classes': [hex(b) for b in (SNIFF_CLASSES_Q if q else SNIFF_CLASSES_T)],
         'b_prefix_max_len': 4 if q else 5,
@@ -194,10 +195,8 @@ def variants(default, params, k):
     return out
 
 
-def _table_decls(tier):
-    k = 1 if tier == 'quick' else 2
-    encs = DECL_ENC_Q if tier == 'quick' else DECL_ENC_T
-    out = [None]
+def _decls(encs, k):
+    out = []
     for enc in encs:
         for v in variants(DECL_DEFAULT, DECL_PARAMS, k):
             if not enc and v['eq'] != '=':
@@ -206,14 +205,38 @@ def _table_decls(tier):
     return out
 
 
-def _table_metas(tier):
+def _metas(k):
     out = [None]
     for cs in META_CS:
         out.append(dict(META_DEFAULT, cs=cs))
-    if tier != 'quick':
-        for v in variants(META_DEFAULT, META_PARAMS, 1)[1:]:
+    if k:
+        for v in variants(META_DEFAULT, META_PARAMS, k)[1:]:
             out.append(dict(v, cs='ISO-8859-1'))
     return out
+
+
+_PAIRS = {}
+
+
+def _table_pairs(tier):
+    """(declaration, meta) pairs of the table: spelling deviations are bounded over the whole document"""
+    if tier not in _PAIRS:
+        if tier == 'quick':
+            pairs = [(d, m) for d in [None] + _decls(DECL_ENC_Q, 1) for m in _metas(0)]
+        else:
+            base = _metas(0)
+            pairs = [(d, m) for d in [None] + _decls(DECL_ENC_T, 2) for m in base]
+            pairs += [(d, m) for d in [None] + _decls(DECL_ENC_T, 1) for m in _metas(1)[len(base):]]
+        _PAIRS[tier] = pairs
+    return _PAIRS[tier]
+
+
+def _table_decls(tier):
+    return [None] + _decls(DECL_ENC_Q if tier == 'quick' else DECL_ENC_T, 1 if tier == 'quick' else 2)
+
+
+def _table_metas(tier):
+    return _metas(0 if tier == 'quick' else 1)
 
 
 def _all_decls():
@@ -453,15 +476,13 @@ def run_table_case(res, case):
 
 def _table_rows(tier, mt, stub, bom):
     charsets = CHARSETS_Q if tier == 'quick' else CHARSETS_T
-    decls, metas = _table_decls(tier), _table_metas(tier)
     for cs in charsets:
         if cs[0] is not None and mt is None:
             continue  # a charset without a media type is not a Content-Type header
-        for decl in decls:
-            for meta in metas:
-                for as_ in ('str', 'bytes'):
-                    yield {'kind': 'table', 'mt': mt, 'stub': stub, 'charset': None if cs[0] is None else list(cs),
-                           'bom': bom, 'decl': decl, 'meta': meta, 'as': as_}
+        for decl, meta in _table_pairs(tier):
+            for as_ in ('str', 'bytes'):
+                yield {'kind': 'table', 'mt': mt, 'stub': stub, 'charset': None if cs[0] is None else list(cs),
+                       'bom': bom, 'decl': decl, 'meta': meta, 'as': as_}
 
 
 def _run_table(res, tier, mt, stub, bom):
